@@ -19,7 +19,10 @@
 use rand::prelude::*;
 use rand::rngs::StdRng;
 use serde_json::{json, Value};
+use nalgebra::DMatrix;
+use ndarray::{Array2, ShapeBuilder};
 use smartcore::linalg::naive::dense_matrix::DenseMatrix;
+use smartcore::linalg::BaseVector;
 use smartcore::tree::decision_tree_classifier::{
     DecisionTreeClassifier, DecisionTreeClassifierParameters, SplitCriterion,
 };
@@ -44,7 +47,8 @@ struct Case {
     xden: i64,        // > 0: every x / q value is a multiple of 1/xden; 0: arbitrary floats
     yden: i64,        // regression: y = numerator / yden (yden a power of two)
     family: String,
-    shift: i32, // > 0: also fit on x * 2^shift
+    shift: i32, // != 0: also fit on x * 2^shift
+    backend: &'static str, // "dense" | "dense32" (f32 elements) | "ndarray_f" | "ndarray_c" | "nalgebra"
     expect: Option<Value>,
 }
 
@@ -90,14 +94,17 @@ fn scaled(m: &[Vec<f64>], s: f64) -> Vec<Vec<f64>> {
     m.iter().map(|r| r.iter().map(|v| v * s).collect()).collect()
 }
 
-/// one call of fit + predict(train) + predict(queries) on `x * scale`
-fn fit_case(c: &Case, scale: f64) -> (&'static str, Option<Fitted>) {
-    let c = c.clone();
-    let r = watchdog(60, move || {
-        let xs = scaled(&c.x, scale);
-        let qs = scaled(&c.q, scale);
-        let x = DenseMatrix::from_2d_vec(&xs);
-        let q = if qs.is_empty() { None } else { Some(DenseMatrix::from_2d_vec(&qs)) };
+/// fit + dump + predict(train) + predict(queries) with element type `$t` on the matrix type
+/// produced by `$mk` (a closure rows -> matrix); everything is converted back to f64 exactly.
+macro_rules! fit_with {
+    ($t:ty, $c:expr, $xs:expr, $qs:expr, $mk:expr) => {{
+        let c: &Case = $c;
+        let conv = |m: &Vec<Vec<f64>>| -> Vec<Vec<$t>> { m.iter().map(|r| r.iter().map(|&v| v as $t).collect()).collect() };
+        let x = $mk(&conv($xs));
+        let q = if $qs.is_empty() { None } else { Some($mk(&conv($qs))) };
+        let yv: Vec<$t> = c.y.iter().map(|&v| v as $t).collect();
+        let y = BaseVector::from_array(&yv[..]);
+        let back = |v: Vec<$t>| -> Vec<f64> { v.iter().map(|&a| a as f64).collect() };
         if c.kind == "cls" {
             let mut p = DecisionTreeClassifierParameters::default();
             p.criterion = match c.crit {
@@ -108,38 +115,78 @@ fn fit_case(c: &Case, scale: f64) -> (&'static str, Option<Fitted>) {
             p.max_depth = if c.max_depth == 0 { None } else { Some(c.max_depth) };
             p.min_samples_leaf = c.msl;
             p.min_samples_split = c.mss;
-            let tree = match DecisionTreeClassifier::fit(&x, &c.y, p) {
-                Ok(t) => t,
-                Err(_) => return None,
-            };
-            let dump = serde_json::to_value(&tree).unwrap();
-            let pred = tree.predict(&x).ok()?;
-            let predq = match &q {
-                Some(q) => tree.predict(q).ok()?,
-                None => vec![],
-            };
-            let classes = dump["classes"]
-                .as_array()
-                .map(|a| a.iter().map(|v| v.as_f64().unwrap_or(f64::NAN)).collect())
-                .unwrap_or_default();
-            Some(Fitted { nodes: raw_nodes(&dump, false), classes, pred, predq })
+            match DecisionTreeClassifier::<$t>::fit(&x, &y, p) {
+                Err(_) => None,
+                Ok(tree) => {
+                    let dump = serde_json::to_value(&tree).unwrap();
+                    let pred = tree.predict(&x).ok().map(|v| back(BaseVector::to_vec(&v)));
+                    let predq = match &q {
+                        Some(q) => tree.predict(q).ok().map(|v| back(BaseVector::to_vec(&v))),
+                        None => Some(vec![]),
+                    };
+                    let classes = dump["classes"]
+                        .as_array()
+                        .map(|a| a.iter().map(|v| v.as_f64().unwrap_or(f64::NAN)).collect())
+                        .unwrap_or_default();
+                    match (pred, predq) {
+                        (Some(pred), Some(predq)) => Some(Fitted { nodes: raw_nodes(&dump, false), classes, pred, predq }),
+                        _ => None,
+                    }
+                }
+            }
         } else {
             let p = DecisionTreeRegressorParameters {
                 max_depth: if c.max_depth == 0 { None } else { Some(c.max_depth) },
                 min_samples_leaf: c.msl,
                 min_samples_split: c.mss,
             };
-            let tree = match DecisionTreeRegressor::fit(&x, &c.y, p) {
-                Ok(t) => t,
-                Err(_) => return None,
-            };
-            let dump = serde_json::to_value(&tree).unwrap();
-            let pred = tree.predict(&x).ok()?;
-            let predq = match &q {
-                Some(q) => tree.predict(q).ok()?,
-                None => vec![],
-            };
-            Some(Fitted { nodes: raw_nodes(&dump, true), classes: vec![], pred, predq })
+            match DecisionTreeRegressor::<$t>::fit(&x, &y, p) {
+                Err(_) => None,
+                Ok(tree) => {
+                    let dump = serde_json::to_value(&tree).unwrap();
+                    let pred = tree.predict(&x).ok().map(|v| back(BaseVector::to_vec(&v)));
+                    let predq = match &q {
+                        Some(q) => tree.predict(q).ok().map(|v| back(BaseVector::to_vec(&v))),
+                        None => Some(vec![]),
+                    };
+                    match (pred, predq) {
+                        (Some(pred), Some(predq)) => Some(Fitted { nodes: raw_nodes(&dump, true), classes: vec![], pred, predq }),
+                        _ => None,
+                    }
+                }
+            }
+        }
+    }};
+}
+
+fn flat_rows<T: Copy>(rows: &Vec<Vec<T>>) -> Vec<T> {
+    rows.iter().flat_map(|r| r.iter().copied()).collect()
+}
+fn flat_cols<T: Copy>(rows: &Vec<Vec<T>>) -> Vec<T> {
+    let p = rows.first().map(|r| r.len()).unwrap_or(0);
+    (0..p).flat_map(|j| rows.iter().map(move |r| r[j])).collect()
+}
+
+/// one call of fit + predict(train) + predict(queries) on `x * scale`, through the matrix
+/// back end / element type named by `c.backend`
+fn fit_case(c: &Case, scale: f64) -> (&'static str, Option<Fitted>) {
+    let c = c.clone();
+    let r = watchdog(60, move || {
+        let xs = scaled(&c.x, scale);
+        let qs = scaled(&c.q, scale);
+        match c.backend {
+            "dense32" => fit_with!(f32, &c, &xs, &qs, |m: &Vec<Vec<f32>>| DenseMatrix::from_2d_vec(m)),
+            // contiguous column-major Array2 (what transpose / reversed_axes / .f() shapes produce)
+            "ndarray_f" => fit_with!(f64, &c, &xs, &qs, |m: &Vec<Vec<f64>>| {
+                Array2::from_shape_vec((m.len(), m[0].len()).f(), flat_cols(m)).unwrap()
+            }),
+            "ndarray_c" => fit_with!(f64, &c, &xs, &qs, |m: &Vec<Vec<f64>>| {
+                Array2::from_shape_vec((m.len(), m[0].len()), flat_rows(m)).unwrap()
+            }),
+            "nalgebra" => fit_with!(f64, &c, &xs, &qs, |m: &Vec<Vec<f64>>| {
+                DMatrix::from_row_slice(m.len(), m[0].len(), &flat_rows(m))
+            }),
+            _ => fit_with!(f64, &c, &xs, &qs, |m: &Vec<Vec<f64>>| DenseMatrix::from_2d_vec(m)),
         }
     });
     match r {
@@ -277,67 +324,71 @@ fn ynum(c: &Case) -> Vec<i64> {
     c.y.iter().map(|&v| int_exact(v * c.yden as f64).unwrap_or(-99999)).collect()
 }
 
-/// All events of one case: TreeFit, Refit (same input again), Scaled (features * 2^shift).
-fn case_events(run: i64, c: &Case, out: &mut Out) {
-    let n = c.x.len();
-    let p = c.x.first().map(|r| r.len()).unwrap_or(0);
-    let head = json!({"run": run, "kind": c.kind, "crit": c.crit, "maxDepth": c.max_depth, "msl": c.msl,
-                      "mss": c.mss, "n": n, "p": p, "family": c.family});
-    let with = |base: &Value, extra: Value| -> Value {
-        let mut m = base.as_object().unwrap().clone();
-        for (k, v) in extra.as_object().unwrap() {
-            m.insert(k.clone(), v.clone());
-        }
-        Value::Object(m)
-    };
-    let (status, fitted) = fit_case(c, 1.0);
+fn with(base: &Value, extra: Value) -> Value {
+    let mut m = base.as_object().unwrap().clone();
+    for (k, v) in extra.as_object().unwrap() {
+        m.insert(k.clone(), v.clone());
+    }
+    Value::Object(m)
+}
+
+/// One fit on `x * scale`, as the fields of a TreeFit record (the feature values, queries and
+/// thresholds are projected back to the unscaled integer scale / to joint ranks).
+fn fit_record(c: &Case, scale: f64) -> (&'static str, Option<Value>) {
+    let (status, fitted) = fit_case(c, scale);
     let f = match fitted {
         Some(f) => f,
-        None => {
-            out.emit(with(&head, json!({"ev": "TreeFit", "status": status, "y": ynum(c), "yden": c.yden})));
-            return;
-        }
+        None => return (status, None),
     };
-    let (xkind, xs, qs, thr, thr_ok) = project_x(c, &f, 1.0);
+    let (xkind, xs, qs, thr, thr_ok) = project_x(c, &f, scale);
     let (nodes, sig) = nodes_json(c, &f, &thr, &thr_ok);
     let (pred, pred_ok, psig) = preds_json(c, &f.pred);
     let (predq, predq_ok, qsig) = preds_json(c, &f.predq);
     let classes: Vec<i64> = f.classes.iter().map(|&v| int_exact(v).unwrap_or(-99999)).collect();
-    let mut ev = with(
-        &head,
-        json!({"ev": "TreeFit", "status": "ok", "xkind": xkind, "X": xs, "Q": qs, "y": ynum(c), "yden": c.yden,
+    (
+        "ok",
+        Some(json!({"status": "ok", "xkind": xkind, "X": xs, "Q": qs,
                "nodes": nodes, "classes": classes, "pred": pred, "predQ": predq, "predOk": pred_ok && predq_ok,
-               "sig": {"nodes": sig, "pred": psig, "predQ": qsig}}),
-    );
+               "sig": {"nodes": sig, "pred": psig, "predQ": qsig}})),
+    )
+}
+
+/// All events of one case: TreeFit, Refit (same input again), Scaled (features * 2^shift, a
+/// complete fit record of its own plus the bit signature compared with the unscaled fit).
+fn case_events(run: i64, c: &Case, out: &mut Out) {
+    let n = c.x.len();
+    let p = c.x.first().map(|r| r.len()).unwrap_or(0);
+    let head = json!({"run": run, "kind": c.kind, "crit": c.crit, "maxDepth": c.max_depth, "msl": c.msl,
+                      "mss": c.mss, "n": n, "p": p, "family": c.family, "backend": c.backend,
+                      "prec": if c.backend == "dense32" { "f32" } else { "f64" },
+                      "y": ynum(c), "yden": c.yden, "shift": 0});
+    let (status, rec) = fit_record(c, 1.0);
+    let rec = match rec {
+        Some(r) => r,
+        None => {
+            out.emit(with(&head, json!({"ev": "TreeFit", "status": status})));
+            return;
+        }
+    };
+    let mut ev = with(&with(&head, rec), json!({"ev": "TreeFit"}));
     if let Some(e) = &c.expect {
         ev.as_object_mut().unwrap().insert("expect".to_string(), e.clone());
     }
     out.emit(ev);
     // --- the same input once more
-    let (status2, f2) = fit_case(c, 1.0);
-    match f2 {
-        Some(f2) => {
-            let (_, sig2) = nodes_json(c, &f2, &vec![0; f2.nodes.len()], &vec![false; f2.nodes.len()]);
-            let (_, _, psig2) = preds_json(c, &f2.pred);
-            let (_, _, qsig2) = preds_json(c, &f2.predq);
-            out.emit(json!({"run": run, "ev": "Refit", "status": "ok", "shift": 0,
-                            "sig": {"nodes": sig2, "pred": psig2, "predQ": qsig2}}));
-        }
+    let (status2, rec2) = fit_record(c, 1.0);
+    match rec2 {
+        Some(r2) => out.emit(json!({"run": run, "ev": "Refit", "status": "ok", "shift": 0, "sig": r2["sig"]})),
         None => out.emit(json!({"run": run, "ev": "Refit", "status": status2, "shift": 0})),
     }
-    // --- features multiplied by a positive power of two
-    if c.shift > 0 {
+    // --- features multiplied by a power of two (the unscaled set is the 2^-shift multiple of
+    //     the scaled one, so negative exponents exercise the same clause)
+    if c.shift != 0 {
         let s = (2.0f64).powi(c.shift);
-        let (status3, f3) = fit_case(c, s);
-        match f3 {
-            Some(f3) => {
-                let (_, sig3) = nodes_json(c, &f3, &vec![0; f3.nodes.len()], &vec![false; f3.nodes.len()]);
-                let (_, _, psig3) = preds_json(c, &f3.pred);
-                let (_, _, qsig3) = preds_json(c, &f3.predq);
-                out.emit(json!({"run": run, "ev": "Scaled", "status": "ok", "shift": c.shift,
-                                "sig": {"nodes": sig3, "pred": psig3, "predQ": qsig3}}));
-            }
-            None => out.emit(json!({"run": run, "ev": "Scaled", "status": status3, "shift": c.shift})),
+        let (status3, rec3) = fit_record(c, s);
+        match rec3 {
+            Some(r3) => out.emit(with(&with(&head, r3), json!({"ev": "Scaled", "shift": c.shift}))),
+            None => out.emit(with(&head, json!({"ev": "Scaled", "status": status3, "shift": c.shift}))),
         }
     }
 }
